@@ -35,6 +35,7 @@ import re
 import concurrent.futures as cf
 
 from . import common, tlc, gen
+from .exc import exc_name
 
 INHOUSE = ("kthlist", "dimacs", "matrix")
 KNOWN_FORMATS = ("kthlist", "gml", "dot", "dimacs", "matrix")
@@ -145,7 +146,7 @@ def build(gtype, n, r, edges, lazy=False):
 
 def outcome_of(e):
     """ValueError (and its subclasses, as `except ValueError` sees them) or the class name."""
-    return "ValueError" if isinstance(e, ValueError) else type(e).__name__
+    return "ValueError" if isinstance(e, ValueError) else exc_name(e)
 
 
 @contextlib.contextmanager
@@ -250,7 +251,7 @@ def run_roundtrip(job):
     except KeyboardInterrupt:
         raise
     except BaseException as e:
-        record(job["id"], "write_" + type(e).__name__, dict(NOREAD), None, "%s: %s" % (type(e).__name__, str(e)[:160]))
+        record(job["id"], "write_" + exc_name(e), dict(NOREAD), None, "%s: %s" % (type(e).__name__, str(e)[:160]))
         return recs
     try:
         try:
